@@ -508,6 +508,11 @@ func (st *state) validate(instance reflect.Value, schema *Schema, callerAnns *an
 			//
 			// Note: this is much faster than comparing with falseSchema using Equal.
 			isFalsy := schema.AdditionalProperties.Not != nil && reflect.ValueOf(*schema.AdditionalProperties.Not).IsZero()
+			// In draft-07 every keyword next to "$ref" is ignored, "not" included:
+			// {"$ref": ..., "not": {}} is whatever the reference says, not "false".
+			if isFalsy && st.rs.draft == draft7 && schema.AdditionalProperties.Ref != "" {
+				isFalsy = false
+			}
 			if isFalsy {
 				var disallowed []string
 				for prop := range properties(instance) {
